@@ -10,7 +10,7 @@ EXTENDS SpectrumOps, TLC
 CONSTANTS MaxDepth, Shapes, FullMaskSize
 
 ShapesQuick == {<<3>>, <<4>>, <<5>>, <<2,3>>, <<3,3>>, <<2,4>>, <<2,2,3>>}
-ShapesThorough == ShapesQuick \cup {<<6>>, <<7>>, <<3,4>>, <<4,4>>, <<2,3,3>>, <<2,3,4>>, <<2,2,2,2>>}
+ShapesThorough == ShapesQuick \cup {<<6>>, <<3,4>>, <<2,3,3>>, <<2,2,2,2>>}
 VARIABLES s, depth
 vars == <<s, depth>>
 
